@@ -76,6 +76,8 @@ MUTANTS = [
  ("c13_serializer_global_array_counter", "C13", [(P, "        var_count = 0\n", "        global _VAR_COUNT\n        var_count = _VAR_COUNT\n"),
                                                  (P, "        return \"\\n\".join(script)\n", "        _VAR_COUNT = var_count\n        return \"\\n\".join(script)\n"),
                                                  (P, "class BlackbirdProgram:", "_VAR_COUNT = 0\n\n\nclass BlackbirdProgram:")]),
+ ("c13_dump_detaches_operations_while_writing", "C13", [(I, "    text = blackbird.serialize()\n    f.write(text)\n",
+                                                           "    text = blackbird.serialize()\n    ops, blackbird._operations = blackbird._operations, []  # release while writing\n    f.write(text)\n    blackbird._operations = ops\n")]),
  # ---- C19 -------------------------------------------------------------------
  ("c19_str_replace_per_symbol", "C19", [(P, "                        braced = {p: sym.Symbol(\"{\" + str(p) + \"}\") for p in v.free_symbols}\n                        res = str(v.xreplace(braced))\n",
                                             "                        res = str(v)\n                        for p in v.free_symbols:\n                            res = res.replace(str(p), \"{\"+str(p)+\"}\")\n")]),
